@@ -74,7 +74,7 @@ fn peer_doc(name: &str, sends: &[SendSpec], child: Option<&str>, trigger_at_star
     s.push_str(&format!("<scxml xmlns=\"http://www.w3.org/2005/07/scxml\" version=\"1.0\" datamodel=\"rfsm-expression\" name=\"{}\" initial=\"run\">\n", name));
     s.push_str(" <datamodel><data id=\"x\" expr=\"5\"/><data id=\"s\" expr=\"'str'\"/><data id=\"gid\" expr=\"'none'\"/><data id=\"es\" expr=\"''\"/><data id=\"nl\" expr=\"null\"/><data id=\"zero\" expr=\"0\"/><data id=\"no\" expr=\"false\"/><data id=\"el\" expr=\"[]\"/></datamodel>\n <state id=\"run\">\n");
     if let Some(c) = child {
-        s.push_str(&format!("  <invoke id=\"kid\"><content>{}</content></invoke>\n  <invoke><content>{}</content></invoke>\n", c, MINI_CHILD));
+        s.push_str(&format!("  <invoke id=\"@KID@\"><content>{}</content></invoke>\n  <invoke><content>{}</content></invoke>\n", c, MINI_CHILD));
     }
     if trigger_at_start {
         s.push_str("  <onentry>");
@@ -130,6 +130,8 @@ impl Property for C15Prop {
 
     fn generate(&self, rng: &mut Rng, tier: Tier, _index: u64) -> Scenario {
         let m = rng.range(2, 3) as usize;
+        // session ids start at 1, 9 (one- and two-digit ids in one run) or 98 (two- and three-digit ids)
+        let base: u32 = *rng.pick(&[1u32, 1, 9, 98]);
         let late = rng.chance(1, 2);
         let with_child = rng.chance(2, 3);
         let mut n = 0usize;
@@ -139,9 +141,9 @@ impl Property for C15Prop {
                 "self" => String::new(),
                 "internal" => " target=\"#_internal\"".into(),
                 "parent" => " target=\"#_parent\"".into(),
-                "kid" => " target=\"#_kid\"".into(),
+                "kid" => " target=\"#_@KID@\"".into(),
                 d => {
-                    let id: u32 = d.trim_start_matches('p').parse().unwrap_or(1);
+                    let id: u32 = base - 1 + d.trim_start_matches('p').parse::<u32>().unwrap_or(1);
                     if rng.chance(1, 2) {
                         format!(" target=\"#_scxml_{}\"", id)
                     } else {
@@ -198,6 +200,11 @@ impl Property for C15Prop {
             docs.push(DocSrc { name: role.clone(), xml: peer_doc(&role, &ss, None, true), via_rfsm: false, model: None });
             all.extend(ss);
         }
+        // the literal invoke id: also ids that begin like the special targets (#_parent, #_internal, #_scxml_<id>)
+        let kid_id = *rng.pick(&["kid", "kid", "parentx", "internalx", "scxmlk"]);
+        for d in docs.iter_mut() {
+            d.xml = d.xml.replace("@KID@", kid_id);
+        }
         let mut script: Vec<Step> = (0..m).map(|d| Step::Start { doc: d }).collect();
         // triggers: the driver and a producer fire the k.<n> events concurrently
         let mut prod: Vec<PStep> = Vec::new();
@@ -231,10 +238,12 @@ impl Property for C15Prop {
         script.push(Step::Quiesce);
         let mut notes = BTreeMap::new();
         notes.insert("m".into(), m.to_string());
+        notes.insert("kid_id".into(), kid_id.to_string());
+        notes.insert("base".into(), base.to_string());
         for sp in &all {
             notes.insert(format!("send.{}", sp.n), format!("{}|{}|{}|{}|{}", sp.from, sp.dest, sp.payload, sp.with_id, if sp.target_attr.contains("targetexpr") { "expr" } else { "lit" }));
         }
-        Scenario { kind: "S3-routing".into(), docs, files: vec![], script, producers: { let mut p = vec![prod]; p.extend(starters); p }, knobs: Knobs { snapshots: rng.chance(1, 2), ..Default::default() }, notes }
+        Scenario { kind: "S3-routing".into(), docs, files: vec![], script, producers: { let mut p = vec![prod]; p.extend(starters); p }, knobs: Knobs { snapshots: rng.chance(1, 2), id_base: base, ..Default::default() }, notes }
     }
 
     fn check(&self, v: &RunView, probes: &mut Probes) -> Verdict {
@@ -452,7 +461,8 @@ impl Property for C15Prop {
                     }
                 }
             }
-            if v.rec.session_task.keys().any(|s| *s as usize > m) && v.sc.producers.iter().any(|p| p.iter().any(|x| matches!(x, PStep::Start { .. }))) {
+            let base: usize = v.sc.notes.get("base").and_then(|s| s.parse().ok()).unwrap_or(1);
+            if v.rec.session_task.keys().any(|s| *s as usize > base - 1 + m) && v.sc.producers.iter().any(|p| p.iter().any(|x| matches!(x, PStep::Start { .. }))) {
                 probes.hit("concurrent_session_creation");
             }
             // generated invoke ids: invokeid field of events coming from children without literal id
@@ -464,7 +474,8 @@ impl Property for C15Prop {
                     }
                 }
             }
-            let generated_inv: Vec<&String> = invoke_ids.iter().filter(|i| i.as_str() != "kid").collect();
+            let kid_id = v.sc.notes.get("kid_id").cloned().unwrap_or_else(|| "kid".into());
+            let generated_inv: Vec<&String> = invoke_ids.iter().filter(|i| **i != kid_id).collect();
             for g in &generated_inv {
                 probes.hit("generated_invokeid");
                 if !well_formed_generated(g, "run") {
